@@ -288,7 +288,7 @@ class null_archive(archive):
     def __setitem__(self, key, value):
         pass
     __setitem__.__doc__ = dict.__setitem__.__doc__
-    def update(self, adict, **kwds):
+    def update(self, adict=(), **kwds):
         pass
     update.__doc__ = dict.update.__doc__
     def setdefault(self, key, *value):
@@ -491,7 +491,7 @@ class dir_archive(archive):
         self.__setitem__(key, res)
         return res
     setdefault.__doc__ = dict.setdefault.__doc__
-    def update(self, adict, **kwds):
+    def update(self, adict=(), **kwds):
         if hasattr(adict,'__asdict__'): adict = adict.__asdict__()
         memo = {}
         memo.update(adict, **kwds) #XXX: could be better ?
@@ -877,7 +877,7 @@ class file_archive(archive):
         self.__setitem__(key, res)
         return res
     setdefault.__doc__ = dict.setdefault.__doc__
-    def update(self, adict, **kwds):
+    def update(self, adict=(), **kwds):
         if hasattr(adict,'__asdict__'): adict = adict.__asdict__()
         memo = self.__asdict__()
         memo.update(adict, **kwds)
@@ -1137,7 +1137,7 @@ if sql:
           self.__setitem__(key, res)
           return res
       setdefault.__doc__ = dict.setdefault.__doc__
-      def update(self, adict, **kwds):
+      def update(self, adict=(), **kwds):
           if hasattr(adict,'__asdict__'): adict = adict.__asdict__()
           memo = {}
           memo.update(adict, **kwds) #XXX: could be better ?
@@ -1494,7 +1494,7 @@ if sql:
               self.__setitem__(key, _value)
           return _value
       setdefault.__doc__ = dict.setdefault.__doc__
-      def update(self, adict, **kwds):
+      def update(self, adict=(), **kwds):
           if hasattr(adict,'__asdict__'): adict = adict.__asdict__()
           elif hasattr(adict, 'copy'): adict = adict.copy()
           else: adict = dict(adict)
@@ -1721,7 +1721,7 @@ else:
               self.__setitem__(key, _value)
           return _value
       setdefault.__doc__ = dict.setdefault.__doc__
-      def update(self, adict, **kwds):
+      def update(self, adict=(), **kwds):
           if hasattr(adict,'__asdict__'): adict = adict.__asdict__()
           elif hasattr(adict, 'copy'): adict = adict.copy()
           else: adict = dict(adict)
@@ -2014,7 +2014,7 @@ if hdf:
           self.__setitem__(key, res)
           return res
       setdefault.__doc__ = dict.setdefault.__doc__
-      def update(self, adict, **kwds):
+      def update(self, adict=(), **kwds):
           if hasattr(adict,'__asdict__'): adict = adict.__asdict__()
           memo = {}
           memo.update(adict, **kwds)
@@ -2192,7 +2192,7 @@ if hdf:
           self.__setitem__(key, res)
           return res
       setdefault.__doc__ = dict.setdefault.__doc__
-      def update(self, adict, **kwds):
+      def update(self, adict=(), **kwds):
           if hasattr(adict,'__asdict__'): adict = adict.__asdict__()
           memo = {}
           memo.update(adict, **kwds) #XXX: could be better ?
